@@ -25,8 +25,13 @@
 (* time (Recv is the consumer taking one).                                 *)
 (*                                                                         *)
 (* Named deviations (constants): PublishAfterUnlock = TRUE is the code as *)
-(* pinned (Set/Update publish after releasing the write lock, so events   *)
-(* of different commits can be delivered out of commit order);            *)
+(* pinned (Set/Update publish after releasing the write lock and nothing  *)
+(* orders the publications of different writers, so events of different   *)
+(* commits can be delivered out of commit order); FALSE = every write     *)
+(* (Set/Update/Delete) takes a per-resource publication mutex (mu.ser)    *)
+(* just before it takes the write lock to commit and keeps it until its   *)
+(* event has been handed to all listeners (reads and change callbacks     *)
+(* still overlap, so the optimistic re-validation keeps its purpose).     *)
 (* CreatedRevalidated = FALSE is the pinned create path (the second read  *)
 (* under the lock returns the freshly created message without looking at  *)
 (* the store).                                                             *)
@@ -45,7 +50,8 @@ NoW == 0
 VARIABLES
   store,      \* [Ids -> [v, ver]]   v = Absent when there is no item
   nextVer,
-  mu,         \* [w : writer holding the write lock or NoW, r : set of subscribers holding the read lock]
+  mu,         \* [w : writer holding the write lock or NoW, r : set of subscribers holding the read lock,
+              \*  ser : writer holding the publication mutex or NoW]
   prog,       \* [Writers -> call]   fixed at Init
   pc, loc,    \* per writer: program counter and locals
   pub,        \* per writer: [ev, targets]  event being published and listeners still to be served
@@ -70,7 +76,7 @@ Step(a, p) == sched' = Append(sched, [a |-> a, p |-> p])
 Init ==
   /\ store \in { [i \in Ids |-> [v |-> s[i], ver |-> IF s[i] = Absent THEN 0 ELSE 1]] : s \in InitStores }
   /\ nextVer = 2
-  /\ mu = [w |-> NoW, r |-> {}]
+  /\ mu = [w |-> NoW, r |-> {}, ser |-> NoW]
   /\ prog \in [Writers -> Programs]
   /\ pc = [w \in Writers |-> "start"]
   /\ loc = [w \in Writers |-> [old |-> Absent, ver |-> 0, created |-> FALSE, new |-> Absent, attempt |-> 0,
@@ -86,8 +92,15 @@ Init ==
   /\ commitLog = <<>>
   /\ sched = <<>>
 
+\* taking / releasing the publication mutex (a no-op in the pinned variant)
+SerFree(w) == PublishAfterUnlock \/ mu.ser = NoW
+Take(w, m) == IF PublishAfterUnlock THEN m ELSE [m EXCEPT !.ser = w]
+Drop(w, m) == IF m.ser = w THEN [m EXCEPT !.ser = NoW] ELSE m
+
+\* the call returns (mu' is set here: the publication mutex is released)
 Finish(w, e, ret) == /\ pc' = [pc EXCEPT ![w] = "done"]
                      /\ loc' = [loc EXCEPT ![w].err = e, ![w].ret = ret]
+                     /\ mu' = Drop(w, mu)
 
 ----------------------------------------------------------------------------
 (* Update / Set / Add                                                      *)
@@ -99,11 +112,11 @@ Read(w) ==
   /\ IF cur.v # Absent
        THEN IF c.xa THEN Finish(w, "AlreadyExists", Absent)
             ELSE /\ loc' = [loc EXCEPT ![w].old = cur.v, ![w].created = FALSE]
-                 /\ pc' = [pc EXCEPT ![w] = "change"]
+                 /\ pc' = [pc EXCEPT ![w] = "change"] /\ UNCHANGED mu
        ELSE IF ~c.cia THEN Finish(w, "NotFound", Absent)
             ELSE /\ loc' = [loc EXCEPT ![w].old = 0, ![w].created = TRUE]     \* a new empty message
-                 /\ pc' = [pc EXCEPT ![w] = "change"]
-  /\ UNCHANGED <<store, nextVer, mu, prog, pub, lsn, kind, spc, snap, fwd, view, seen, commitLog>>
+                 /\ pc' = [pc EXCEPT ![w] = "change"] /\ UNCHANGED mu
+  /\ UNCHANGED <<store, nextVer, prog, pub, lsn, kind, spc, snap, fwd, view, seen, commitLog>>
 
 NewValue(c, old) == IF c.inc THEN old + c.v ELSE c.v
 
@@ -113,9 +126,10 @@ Change(w) ==
   /\ Step("Change", w)
   /\ IF c.e # NoExp /\ c.e # old THEN Finish(w, "FailedPrecondition", Absent)
      ELSE IF c.chk /\ old < 1 THEN Finish(w, "PermissionDenied", Absent)
-     ELSE /\ loc' = [loc EXCEPT ![w].new = NewValue(c, old)]
-          /\ pc' = [pc EXCEPT ![w] = "commit"]
-  /\ UNCHANGED <<store, nextVer, mu, prog, pub, lsn, kind, spc, snap, fwd, view, seen, commitLog>>
+     ELSE /\ SerFree(w)                        \* about to commit: publication mutex first
+          /\ loc' = [loc EXCEPT ![w].new = NewValue(c, old)]
+          /\ pc' = [pc EXCEPT ![w] = "commit"] /\ mu' = Take(w, mu)
+  /\ UNCHANGED <<store, nextVer, prog, pub, lsn, kind, spc, snap, fwd, view, seen, commitLog>>
 
 \* what the second read under the write lock yields: the value to compare with old, or -3 for "nothing / error"
 Reread(w) ==
@@ -131,19 +145,19 @@ Commit(w) ==
   /\ Step("Commit", w)
   /\ IF Reread(w) # loc[w].old
        THEN /\ Finish(w, "Aborted", Absent)
-            /\ UNCHANGED <<store, nextVer, commitLog, pub, mu>>
+            /\ UNCHANGED <<store, nextVer, commitLog, pub>>
        ELSE /\ store' = [store EXCEPT ![c.id] = [v |-> loc[w].new, ver |-> nextVer]]
             /\ nextVer' = nextVer + 1
             /\ commitLog' = Append(commitLog, [w |-> w, id |-> c.id, pre |-> cur.v, post |-> loc[w].new])
             /\ pub' = [pub EXCEPT ![w] = [id |-> c.id, v |-> loc[w].new, seq |-> Len(commitLog) + 1, targets |-> <<>>]]
             /\ loc' = [loc EXCEPT ![w].ret = loc[w].new]
             /\ pc' = [pc EXCEPT ![w] = "pubsnap"]
-            /\ mu' = IF PublishAfterUnlock THEN mu ELSE [mu EXCEPT !.w = w]
+            /\ UNCHANGED mu
   /\ UNCHANGED <<prog, lsn, kind, spc, snap, fwd, view, seen>>
 
 EndPublish(w) == /\ pc' = [pc EXCEPT ![w] = "done"]
                  /\ loc' = [loc EXCEPT ![w].err = "OK"]
-                 /\ mu' = IF mu.w = w THEN [mu EXCEPT !.w = NoW] ELSE mu
+                 /\ mu' = Drop(w, IF mu.w = w THEN [mu EXCEPT !.w = NoW] ELSE mu)
 
 PubSnap(w) ==
   /\ pc[w] = "pubsnap"
@@ -190,13 +204,13 @@ DCheck(w) ==
   LET c == prog[w]  t == DTop(c, loc[w].old, loc[w].attempt) IN
   /\ pc[w] = "dcheck"
   /\ Step("DCheck", w)
-  /\ IF t.go THEN pc' = [pc EXCEPT ![w] = "dlock"] /\ UNCHANGED loc
+  /\ IF t.go THEN pc' = [pc EXCEPT ![w] = "dlock"] /\ UNCHANGED <<loc, mu>>
      ELSE Finish(w, t.err, t.ret)
-  /\ UNCHANGED <<store, nextVer, mu, prog, pub, lsn, kind, spc, snap, fwd, view, seen, commitLog>>
+  /\ UNCHANGED <<store, nextVer, prog, pub, lsn, kind, spc, snap, fwd, view, seen, commitLog>>
 
 DLock(w) ==
   LET c == prog[w]  cur == store[c.id] IN
-  /\ pc[w] = "dlock" /\ mu.w = NoW /\ mu.r = {}
+  /\ pc[w] = "dlock" /\ mu.w = NoW /\ mu.r = {} /\ SerFree(w)
   /\ Step("DLock", w)
   /\ IF cur.ver # loc[w].ver \/ (cur.v = Absent) # (loc[w].old = Absent)
        THEN \* somebody changed the item while the precondition was being checked: unlock, look at the
@@ -214,7 +228,7 @@ DLock(w) ==
                  ELSE /\ pub' = [pub EXCEPT ![w] = [id |-> c.id, v |-> Absent, seq |-> Len(commitLog) + 1, targets |-> lsn]]
                       /\ pc' = [pc EXCEPT ![w] = "ddeliver"]
                       /\ loc' = [loc EXCEPT ![w].ret = cur.v]
-                      /\ mu' = [mu EXCEPT !.w = w]          \* Delete sends while holding the write lock
+                      /\ mu' = Take(w, [mu EXCEPT !.w = w])  \* Delete sends while holding the write lock
   /\ UNCHANGED <<nextVer, prog, lsn, kind, spc, snap, fwd, view, seen>>
 
 ----------------------------------------------------------------------------
@@ -300,4 +314,5 @@ Converged == AllDone => \A s \in Subs : Drained(s) =>
 \* nothing committed after the subscriber registered is missed: it is delivered or pending
 NoLock == mu.w = NoW \/ pc[mu.w] \in {"deliver", "ddeliver", "pubsnap"}
 TypeOK == /\ mu.w \in Writers \cup {NoW} /\ mu.r \subseteq Subs /\ NoLock
+          /\ mu.ser \in Writers \cup {NoW} /\ (mu.ser # NoW => pc[mu.ser] # "done")
 =============================================================================
